@@ -87,6 +87,24 @@ Theorem C20_loser_changes_nothing :
     e s' = e s /\ applied s' = applied s /\ acked s' = acked s /\ running s' = running s /\ thr s' t = None.
 Proof. exact loser_changes_nothing_pf. Qed.
 
+(* ---- the winner learns late that it has won (etcd's answer is held: OCommit ... OFinish): whatever happens in between,
+        it is the same bootstrap as an undelayed one; every request handled in that window is a loser (C20_loser_changes_nothing:
+        the root exists); a transaction etcd commits within the time the request waits for it is the Ok outcome ---- *)
+Theorem C20_late_answer_is_the_same_bootstrap :
+  forall s t s1 o, boot_commit s t = Some (s1, BStarted) -> boot_finish s1 t o = boot_finish s t Ok.
+Proof. exact late_answer_same_bootstrap_pf. Qed.
+
+Theorem C20_commit_of_a_loser_is_its_refusal :
+  forall s t s1, boot_commit s t = Some (s1, BConflict) -> boot_finish s t Ok = Some (s1, BConflict).
+Proof. exact commit_loser_is_finish_pf. Qed.
+
+Theorem C20_slow_commit_below_request_timeout_is_ok :
+  forall r t ms, (ms < request_timeout_ms)%Z -> run_op1 r (OFinishSlow t ms) = run_op1 r (OFinish t Ok).
+Proof. exact slow_commit_below_timeout_pf. Qed.
+
+Theorem C20_request_timeout_is_the_codes : kv_request_timeout_ns = (request_timeout_ms * 1000000)%Z.
+Proof. exact request_timeout_matches_code. Qed.
+
 (* a mismatching cluster id, an already running cluster, a malformed payload: refused, nothing changes *)
 Theorem C20_refused_at_begin :
   forall s t hid p s', (hid <> scid s \/ running s = true \/ check_req p <> None) ->
@@ -204,3 +222,7 @@ Print Assumptions C20_put_config_compares_cluster_id.
 Print Assumptions C20_stream_refusal_is_per_message.
 Print Assumptions C20_stream_stops_at_refusal.
 Print Assumptions C20_stream_handlers_check_every_message.
+Print Assumptions C20_late_answer_is_the_same_bootstrap.
+Print Assumptions C20_commit_of_a_loser_is_its_refusal.
+Print Assumptions C20_slow_commit_below_request_timeout_is_ok.
+Print Assumptions C20_request_timeout_is_the_codes.
